@@ -526,6 +526,38 @@ def estimates_resolve_what_the_context_resolves(prog, res):
     res.need(R, 7)
 
 
+def cdict_estimate_vs_static_gate(prog, res):
+    """T9 (siblings): ZSTD_initStaticCDict refuses a block smaller than its `neededSize`; ZSTD_estimateCDictSize_advanced is what
+    the caller sizes that block with.  Both are sums of the same terms; the match-state term is ZSTD_sizeof_matchState(cParams,
+    rowMode, enableDedicatedDictSearch, forCCtx): the estimate's flags must make its term at least the gate's (the dedicated
+    search flag only adds a table; forCCtx must agree), and both resolve the row mode with the same resolver."""
+    R = "T9.cdict-estimate-vs-static-gate"
+    est, gate = prog.fn("ZSTD_estimateCDictSize_advanced"), prog.fn("ZSTD_initStaticCDict")
+    ce = [c for b, i, c in est.calls("ZSTD_sizeof_matchState")]
+    cg = [c for b, i, c in gate.calls("ZSTD_sizeof_matchState")]
+    res.check(len(ce) == 1 and len(cg) == 1, R, "sites", est.loc, "one match-state term on each side", "match-state terms: estimate %d, gate %d" % (len(ce), len(cg)))
+    if len(ce) != 1 or len(cg) != 1:
+        return
+    def flag(f, c, k):
+        return const_val(strip_casts(f.resolve_x(c["a"][k])))
+    ed, gd = flag(est, ce[0], 2), flag(gate, cg[0], 2)
+    ef, gf = flag(est, ce[0], 3), flag(gate, cg[0], 3)
+    res.check(ed is not None and gd is not None and ed >= gd, R, "dedicated-search-table", est.loc, "estimate counts the dedicated search table whenever the gate does (%s >= %s)" % (ed, gd),
+              "ZSTD_estimateCDictSize_advanced sizes the match state with enableDedicatedDictSearch=%s while ZSTD_initStaticCDict requires the size with %s: a block of the "
+              "estimated size is refused (NULL) for fast and for row-based strategies" % (ed, gd))
+    res.check(ef is not None and ef == gf, R, "forCCtx", est.loc, "same forCCtx flag (%s)" % ef, "forCCtx differs: estimate %s, gate %s" % (ef, gf))
+    rowres = lambda f, c: any(is_call(y, "ZSTD_resolveRowMatchFinderMode") for y in f.walk_deep(c["a"][1]))
+    res.check(rowres(est, ce[0]) and rowres(gate, cg[0]), R, "row-mode", est.loc, "both resolve the row mode with ZSTD_resolveRowMatchFinderMode",
+              "the row mode of the match-state term is not resolved the same way on both sides")
+    # the other terms: both sides name the same sizes
+    def terms(f):
+        return {("sizeof:" + str(y.get("t") or y.get("n"))) for b, i, r in f.roots() for y in walk(r) if y.get("k") == "sizeof"} | \
+               {m for b, i, r in f.roots() for y in walk(r) for m in (y.get("m") or []) if m in ("HUF_WORKSPACE_SIZE",)}
+    te, tg = terms(est), terms(gate)
+    res.check("HUF_WORKSPACE_SIZE" in te and "HUF_WORKSPACE_SIZE" in tg, R, "entropy-workspace", est.loc, "both count HUF_WORKSPACE_SIZE", "HUF_WORKSPACE_SIZE term: estimate %s, gate %s" % ("HUF_WORKSPACE_SIZE" in te, "HUF_WORKSPACE_SIZE" in tg))
+    res.need(R, 5)
+
+
 def run(tier):
     res = Result("C14", tier)
     tus, info = extract(["compress", "decompress", "common"])
@@ -536,6 +568,7 @@ def run(tier):
     estimate_probes(prog, res)
     resolved_against_final_cparams(prog, res)
     estimates_resolve_what_the_context_resolves(prog, res)
+    cdict_estimate_vs_static_gate(prog, res)
     buffer_mode_pairing(prog, res)
     static_never_grows(prog, res)
     bump_allocator(prog, res)
